@@ -4,6 +4,8 @@ pub mod exec;
 pub mod model;
 pub mod prng;
 pub mod sched;
+pub mod simenv_case;
+pub mod simenv_gen;
 pub mod workload;
 
 use std::collections::BTreeSet;
